@@ -42,5 +42,8 @@ pub fn catch<T>(f: impl FnOnce() -> T + std::panic::UnwindSafe) -> Result<T, Str
 }
 
 pub fn quiet_panics() {
+    if std::env::var("QEV_LOUD").is_ok() {
+        return;
+    }
     std::panic::set_hook(Box::new(|_| {}));
 }
